@@ -169,4 +169,16 @@ theorem C15_client_input_is_drain (s : Cli.State) (now : Nat) (bytes : Bytes)
     subst h
     rfl
 
+/-- **C15, server session, any number of pieces.**  If draining a byte stream in one call succeeds,
+    draining it piece by piece — ANY pieces, including empty ones — ends in the same state with the same
+    results in the same order.  (When the one-call drain fails, the two agree on the error and on the state;
+    what differs is only which results the caller has been handed before the error: K2b.) -/
+theorem C15_server_session_partition (now : Nat) (rest : List Bytes) (s sF : Srv.State) (call : Bytes) (rs : List Srv.Res)
+    (h : SrvPart.drain s now (call :: rest).flatten = (sF, .ok rs)) : SrvPart.drainAll s now call rest = (sF, .ok rs) :=
+  SrvPart.drain_partition now rest s sF call rs h
+
+theorem C15_client_session_partition (now : Nat) (rest : List Bytes) (s sF : Cli.State) (call : Bytes) (rs : List Cli.Res)
+    (h : CliPart.drain s now (call :: rest).flatten = (sF, .ok rs)) : CliPart.drainAll s now call rest = (sF, .ok rs) :=
+  CliPart.drain_partition now rest s sF call rs h
+
 end Rml.C15
